@@ -370,8 +370,15 @@ pub fn make_poly(n: &Uint, d: u128, r: &Uint) -> Poly {
     debug_assert!((r * r) % d == n % d);
     // Lift square root mod D^2
     // Since D*D < N, computations can be done using the same integer width.
+    // (D*D can exceed N for tiny inputs and for the far polynomial blocks handed
+    // to pool threads: then r^2 may exceed N and the quotient is negative.)
     let h1 = r;
-    let c = ((n - h1 * h1) / d) % d;
+    let h1sq = h1 * h1;
+    let c = if *n >= h1sq {
+        ((n - h1sq) / d) % d
+    } else {
+        (d - ((h1sq - n) / d) % d) % d
+    };
     let h2 = (c * inv_mod(&(h1 << 1), &d).unwrap()) % d;
     // (h1 + h2*D)**2 = n mod D^2
     let mut b = h1 + h2 * d;
